@@ -1030,7 +1030,18 @@ fn apply_request_rewrites_and_headers(
         let key_is_xfh = edit.key.eq_ignore_ascii_case(xfh_lower);
         operator_overrides_host |= key_is_host;
         operator_overrides_xfh |= key_is_xfh;
-        if edit.val.is_empty() {
+        if key_is_host && !edit.val.is_empty() {
+            // The Host line an HTTP/1.1 backend receives (and `:authority`
+            // toward HTTP/2) is written from the status-line authority, never
+            // from a header block: kawa's H1 parser detaches the client's Host
+            // field and its H1 converter writes `Host: <authority>` itself. A
+            // `Host` header BLOCK would therefore be a SECOND Host line on the
+            // wire (`Host: <client>` + `Host: <operator>`). Apply the
+            // operator's value where the Host line comes from.
+            if let kawa::StatusLine::Request { authority, .. } = &mut kawa.detached.status_line {
+                *authority = Store::from_slice(&edit.val);
+            }
+        } else if edit.val.is_empty() {
             keys_to_drop.push(edit.key.iter().map(u8::to_ascii_lowercase).collect());
         } else {
             to_insert.push(Block::Header(Pair {
@@ -1086,12 +1097,10 @@ fn apply_request_rewrites_and_headers(
 
     if rewriting_host {
         let mut synth: Vec<Block> = Vec::with_capacity(2);
-        if let Some(new_host) = rewritten_host {
-            synth.push(Block::Header(Pair {
-                key: Store::Static(b"Host"),
-                val: Store::from_string(new_host.to_owned()),
-            }));
-        }
+        // No `Host` header block for the rewritten host: the status-line
+        // authority was rewritten above and IS the Host line / `:authority`
+        // the converters write; a block would duplicate the Host line toward
+        // HTTP/1.1 backends (RFC 9112 §3.2: more than one Host => 400).
         if let Some(orig) = original_authority.as_deref() {
             synth.push(Block::Header(Pair {
                 key: Store::Static(b"X-Forwarded-Host"),
